@@ -241,7 +241,7 @@ Bytes encode_fits(const TableSpec &t) {
 	Bytes out;
 	std::vector<std::string> h;
 	h.push_back(card_logical("SIMPLE", true, "file does conform to FITS standard"));
-	h.push_back(card_int("BITPIX", -32, "number of bits per data pixel"));
+	h.push_back(card_int("BITPIX", t.double_image ? -64 : -32, "number of bits per data pixel"));
 	h.push_back(card_int("NAXIS", t.ndim, "number of data axes"));
 	for (uint32_t i = 0; i < t.ndim; i++)
 		h.push_back(card_int("NAXIS" + std::to_string(i + 1), (long long)t.naxes[t.ndim - 1 - i], "length of data axis " + std::to_string(i + 1)));
@@ -258,7 +258,8 @@ Bytes encode_fits(const TableSpec &t) {
 	for (auto &e : t.aux)
 		h.push_back(e.literal ? card_literal(e.key, e.value, e.comment) : card_string(e.key, e.value, e.comment));
 	put_header(out, h);
-	for (float f : t.coeff) { uint32_t u; memcpy(&u, &f, 4); put_be32(out, u); }
+	if (t.double_image) for (float f : t.coeff) { double dv = (double)f; uint64_t u; memcpy(&u, &dv, 8); put_be64(out, u); }
+	else for (float f : t.coeff) { uint32_t u; memcpy(&u, &f, 4); put_be32(out, u); }
 	pad_block(out, 0);
 
 	auto ext = [&](const std::string &name, const std::vector<double> &v) {
